@@ -32,6 +32,17 @@ def match_known(known, sig):
     return None
 
 
+def _die_with_parent():
+    """worker initializer: have the kernel kill this worker when the checking process goes away (a killed or timed-out check must
+    not leave solver processes behind)"""
+    try:
+        import ctypes
+        import signal
+        ctypes.CDLL("libc.so.6", use_errno=True).prctl(1, signal.SIGKILL)          # PR_SET_PDEATHSIG
+    except Exception:
+        pass
+
+
 def main(argv=None):
     ap = argparse.ArgumentParser()
     ap.add_argument("pid")
@@ -68,7 +79,7 @@ def main(argv=None):
     ctx = mp.get_context("spawn")
     jobs = max(1, min(a.jobs, len(units)))
     known0 = load_known(pid)
-    ex = cf.ProcessPoolExecutor(max_workers=jobs, mp_context=ctx)
+    ex = cf.ProcessPoolExecutor(max_workers=jobs, mp_context=ctx, initializer=_die_with_parent)
     stop_at = None
 
     def skipped(name):
